@@ -102,6 +102,20 @@ CHECKS["C16"] = dict(
          "(numpy/scipy) not applicable; real-`quantities` evaluation outside",
     technique=Z + " with uninterpreted transcendental functions and argument matching", ref="DESIGN.md section 5 C16")
 
+CHECKS["C07"] = dict(
+    engine="S", category="translation_validation",
+    text="translation validation per generated equilibrium system x {NumSysLin, NumSysLog, NumSysSquare, NumSysLinRel} x (rref_equil, "
+         "rref_preserv): the real residual builder runs in sympy mode on symbols, its output is translated to z3 and proved equivalent "
+         "to the specification in both directions - equilibrium block in log space (residuals = 0 <=> A*log c = log K), conservation "
+         "block (residuals = 0 <=> B*c = B*c0), transformed variants as f_X(y) == f_Lin(g(y)) - plus the equation count; a second "
+         "evaluation of the same instance with other constants must not be influenced by the first",
+    note="positive concentrations/constants; sympy.expand_log(force=True) trusted for log(prod c^a)=sum a*log c; sympy Matrix.rank used by "
+         "the count oracle; systems of 1-3 (thorough 1-5) equilibria from a pool of 18; NumSysLinTanh (not constructible on the pinned "
+         "tree, not in the statement's list) outside; expressions the translator cannot read fall back to a concrete replay (never a "
+         "silent pass)",
+    technique="chempy's own sympy-mode residual builders as front-end, sympy->z3 translation, z3 (LRA/NRA) equivalence proofs per generated system",
+    ref="DESIGN.md section 5 C07")
+
 NA = {
     "C09": "property is about float conversion factors produced inside the 'quantities' package and numpy array helpers; no symbolic "
            "value survives to_unitless (float(result)), and symbolic magnitudes alone would only re-prove linearity (DESIGN.md section 6)",
